@@ -206,11 +206,12 @@ structure ReqPost (s s' : St) : Prop where
   picker : s'.picker = s.picker ∨ ∃ e, s'.picker = .connErr e
   state : s'.state = s.state ∨ s'.state = .tf
   health : s'.health = s.health
+  ps : (s'.picker = s.picker ∧ s'.state = s.state) ∨ (∃ e, s'.picker = .connErr e ∧ s'.state = .tf)
 
 theorem endFirstPass_post (s : St) (e : Nat) (hw : WF s) :
     ReqPost s (endFirstPass s e).1 ∧ OnlyTF (endFirstPass s e).2 ∧ (endFirstPass s e).1.passLog = s.passLog := by
   obtain ⟨a, b, c, d, l, _⟩ := endFirstPass_frame s e
-  refine ⟨⟨wf_congr s _ hw a b, c, by rw [d]; exact Nat.le_refl _, Or.inl l, ?_, ?_, ?_⟩, ?_, l⟩
+  refine ⟨⟨wf_congr s _ hw a b, c, by rw [d]; exact Nat.le_refl _, Or.inl l, ?_, ?_, ?_, ?_⟩, ?_, l⟩
   · unfold endFirstPass
     split
     · left; rfl
@@ -235,6 +236,14 @@ theorem endFirstPass_post (s : St) (e : Nat) (hw : WF s) :
       · simp only [pushState, forcePush]; split <;> rfl
   · unfold endFirstPass
     split
+    · left; exact ⟨rfl, rfl⟩
+    · split
+      · left; exact ⟨rfl, rfl⟩
+      · simp only [pushState, forcePush]; split
+        · left; exact ⟨rfl, rfl⟩
+        · right; exact ⟨e, rfl, rfl⟩
+  · unfold endFirstPass
+    split
     · exact onlyTF_nil
     · split
       · exact onlyTF_nil
@@ -248,7 +257,7 @@ theorem reqPost_rebase {a b c : St} (h : ReqPost b c) (e1 : b.addrs = a.addrs) (
     (e3 : b.passLog = a.passLog) (e4 : b.picker = a.picker) (e5 : b.state = a.state) (e6 : b.health = a.health) :
     ReqPost a c :=
   ⟨h.wf, h.addrs.trans e1, Nat.le_trans e2 h.idx, by rw [← e3]; exact h.log, by rw [← e4]; exact h.picker,
-   by rw [← e5]; exact h.state, h.health.trans e6⟩
+   by rw [← e5]; exact h.state, h.health.trans e6, by rw [← e4, ← e5]; exact h.ps⟩
 
 theorem setSC_frame (s : St) (x : SC) :
     (setSC s x).addrs = s.addrs ∧ (setSC s x).idx = s.idx ∧ (setSC s x).passLog = s.passLog ∧
@@ -290,11 +299,11 @@ theorem requestLoop_post (fuel : Nat) (s : St) (ev : List Ev) (hw : WF s) (hev :
     ReqPost s (requestLoop fuel s ev).1 ∧ OnlyTF (requestLoop fuel s ev).2 := by
   induction fuel generalizing s ev with
   | zero =>
-    exact ⟨⟨hw, rfl, Nat.le_refl _, Or.inl rfl, Or.inl rfl, Or.inl rfl, rfl⟩, hev⟩
+    exact ⟨⟨hw, rfl, Nat.le_refl _, Or.inl rfl, Or.inl rfl, Or.inl rfl, rfl, Or.inl ⟨rfl, rfl⟩⟩, hev⟩
   | succ fuel ih =>
     simp only [requestLoop]
     cases hcur : currentAddress s with
-    | none => exact ⟨⟨hw, rfl, Nat.le_refl _, Or.inl rfl, Or.inl rfl, Or.inl rfl, rfl⟩, hev⟩
+    | none => exact ⟨⟨hw, rfl, Nat.le_refl _, Or.inl rfl, Or.inl rfl, Or.inl rfl, rfl, Or.inl ⟨rfl, rfl⟩⟩, hev⟩
     | some cur =>
       simp only
       have hvalid : isValid s = true := by
@@ -309,7 +318,7 @@ theorem requestLoop_post (fuel : Nat) (s : St) (ev : List Ev) (hw : WF s) (hev :
         simp only
         obtain ⟨g1, g2, g3, g4, g5, g6, g7, _⟩ := schedule_frame { r.1 with passLog := r.1.passLog ++ [r.1.idx] }
         refine ⟨⟨wf_congr r.1 _ hw1 g1 g2, by rw [g3]; exact fa, by rw [g4]; simp [fi], ?_, by rw [g7]; exact Or.inl fp,
-          by rw [g6]; exact Or.inl fs, ?_⟩, ?_⟩
+          by rw [g6]; exact Or.inl fs, ?_, by rw [g7, g6]; exact Or.inl ⟨fp, fs⟩⟩, ?_⟩
         · right; rw [g5, g4, g3]
           simp only [fl, fi, fa, true_and]
           simpa [isValid] using hvalid
@@ -319,12 +328,12 @@ theorem requestLoop_post (fuel : Nat) (s : St) (ev : List Ev) (hw : WF s) (hev :
         simp only
         obtain ⟨g1, g2, g3, g4, g5, g6, g7, _⟩ := schedule_frame r.1
         refine ⟨⟨wf_congr r.1 _ hw1 g1 g2, by rw [g3]; exact fa, by rw [g4, fi]; exact Nat.le_refl _, Or.inl (by rw [g5]; exact fl),
-          by rw [g7]; exact Or.inl fp, by rw [g6]; exact Or.inl fs, ?_⟩, hev1⟩
+          by rw [g7]; exact Or.inl fp, by rw [g6]; exact Or.inl fs, ?_, by rw [g7, g6]; exact Or.inl ⟨fp, fs⟩⟩, hev1⟩
         rw [schedule_eq]; exact fh
       | ready =>
-        exact ⟨⟨hw1, fa, by rw [fi]; exact Nat.le_refl _, Or.inl fl, Or.inl fp, Or.inl fs, fh⟩, hev1⟩
+        exact ⟨⟨hw1, fa, by rw [fi]; exact Nat.le_refl _, Or.inl fl, Or.inl fp, Or.inl fs, fh, Or.inl ⟨fp, fs⟩⟩, hev1⟩
       | shutdown =>
-        exact ⟨⟨hw1, fa, by rw [fi]; exact Nat.le_refl _, Or.inl fl, Or.inl fp, Or.inl fs, fh⟩, hev1⟩
+        exact ⟨⟨hw1, fa, by rw [fi]; exact Nat.le_refl _, Or.inl fl, Or.inl fp, Or.inl fs, fh, Or.inl ⟨fp, fs⟩⟩, hev1⟩
       | tf =>
         simp only
         have hw2 : WF (setSC r.1 r.2.1.markFailed) := wf_setSC_replace r.1 r.2.1 _ hw1 hmem rfl rfl
@@ -344,7 +353,7 @@ theorem requestConnection_post (s : St) (hw : WF s) :
     ReqPost s (requestConnection s).1 ∧ OnlyTF (requestConnection s).2 := by
   unfold requestConnection
   split
-  · exact ⟨⟨hw, rfl, Nat.le_refl _, Or.inl rfl, Or.inl rfl, Or.inl rfl, rfl⟩, onlyTF_nil⟩
+  · exact ⟨⟨hw, rfl, Nat.le_refl _, Or.inl rfl, Or.inl rfl, Or.inl rfl, rfl, Or.inl ⟨rfl, rfl⟩⟩, onlyTF_nil⟩
   · exact requestLoop_post _ s [] hw onlyTF_nil
 
 /-! ### connection order bookkeeping -/
